@@ -177,6 +177,14 @@ func (a *stdTransport) RoundTrip(req *http.Request) (*http.Response, error) {
 	if challenge == nil {
 		return noMoreAuth()
 	}
+	// We might be about to make a request to the token server, which can be
+	// on the same host as the registry. Don't hold on to the connection that
+	// the response came on while that happens: when the transport is limited
+	// to one connection per host, the token request would wait for it forever.
+	if err := unloadBody(resp); err != nil {
+		resp.Body.Close()
+		return nil, err
+	}
 	authAdded, tokenAcquiredFromChallenge, err := r.setAuthorizationFromChallenge(ctx, req, challenge, requiredScope, wantScope)
 	if err != nil {
 		resp.Body.Close()
@@ -203,6 +211,23 @@ func (a *stdTransport) RoundTrip(req *http.Request) (*http.Response, error) {
 		return resp, nil
 	}
 	return forbiddenResponse(resp)
+}
+
+// maxUnauthorizedBody holds the maximum number of bytes of the body
+// of an Unauthorized response that are kept.
+const maxUnauthorizedBody = 64 * 1024
+
+// unloadBody reads the body of resp (up to a limit) into memory
+// and closes it, so that the connection it came on is free again
+// while the response can still be returned to the caller.
+func unloadBody(resp *http.Response) error {
+	data, err := io.ReadAll(io.LimitReader(resp.Body, maxUnauthorizedBody))
+	resp.Body.Close()
+	if err != nil {
+		return fmt.Errorf("cannot read response body: %v", err)
+	}
+	resp.Body = io.NopCloser(bytes.NewReader(data))
+	return nil
 }
 
 // forbiddenResponse changes resp, an Unauthorized (401) response
